@@ -618,8 +618,11 @@ def judgeObs (ln : Nat) (s : String) (obs : PState) : M Unit := do
     | some (nl, L), some mo =>
       if nl != obs.n then bad ln s!"transformer: space dimension {obs.n}, the specification gives {nl}"; fine := false
       else if !(tooBig L [mo]) && !dnfSubsetF obs.n L [mo] then
-        let c1ok := match obs.c1.asPoly? with | some c => dnfSubsetF obs.n L [c] | none => true
-        let which := if !c1ok then "1" else "2"
+        -- which component cut the image: judged on the unreduced (shadow) components when they are known
+        let ref := P.raw.getD obs
+        let cOk (c : Comp) : Bool := match c.asPoly? with | some cs => dnfSubsetF obs.n L [cs] | none => true
+        let which := if !cOk ref.c1 && cOk ref.c2 then "1" else if cOk ref.c1 && !cOk ref.c2 then "2"
+                     else if !cOk ref.c1 then "1+2" else "?"
         bad ln s!"transformer: the result's intersection does not contain the exact image of the argument's intersection (K1) (component {which})"
         fine := false
       else if P.raw.isNone then ok ln
@@ -628,7 +631,9 @@ def judgeObs (ln : Nat) (s : String) (obs : PState) : M Unit := do
     let ptsOk := P.pts.filter fun p => p.length == obs.n
     match ptsOk.find? fun p => !obs.mem p with
     | some p =>
-      let which := if !obs.c1.mem p then "1" else "2"
+      let ref := P.raw.getD obs
+      let which := if !ref.c1.mem p && ref.c2.mem p then "1" else if ref.c1.mem p && !ref.c2.mem p then "2"
+                   else if !ref.c1.mem p then "1+2" else "?"
       bad ln s!"transformer: the result lost the point {p} of the exact image (component {which})"
     | none =>
       if P.raw.isNone && (P.low.isNone || obs.meet?.isNone) then okEnum ln ptsOk.length false
